@@ -194,6 +194,14 @@ func (rt *stubRT) RoundTrip(req *http.Request) (*http.Response, error) {
 	if m := req.Header.Get("X-Verif-Mode"); m != "" {
 		mode = m
 	}
+	if strings.HasPrefix(mode, "slow+") {
+		// the backend takes 11 s (longer than every window and timeout of the harness
+		// configurations) before it answers: the virtual clock moves while the request is in flight
+		if s := vrt.Cur(); s != nil {
+			s.AdvanceQuiet(11 * time.Second)
+		}
+		mode = mode[len("slow+"):]
+	}
 	if strings.HasPrefix(mode, "103+") {
 		// an interim response first, delivered the way a real transport does (client trace hook,
 		// which httputil.ReverseProxy installs to forward 1xx responses)
